@@ -60,7 +60,7 @@ class StandardQTomographyBasedWeightedRelativeEntropy(WeightedRelativeEntropy):
             weights, by default None
         """
         if prob_dists_q:
-            self._prob_dists_q_flat = np.array(prob_dists_q, dtype=np.float64).flatten()
+            self._prob_dists_q_flat = np.hstack(prob_dists_q).astype(np.float64)
 
         super().__init__(
             num_var=num_var,
@@ -101,7 +101,7 @@ class StandardQTomographyBasedWeightedRelativeEntropy(WeightedRelativeEntropy):
         prob_dists_q : List[np.ndarray]
             vectors of ``q``, by default None.
         """
-        self._prob_dists_q_flat = np.array(prob_dists_q, dtype=np.float64).flatten()
+        self._prob_dists_q_flat = np.hstack(prob_dists_q).astype(np.float64)
         super().set_prob_dists_q(prob_dists_q)
 
     def set_func_prob_dists_from_standard_qt(self, qt: StandardQTomography) -> None:
@@ -146,8 +146,8 @@ class StandardQTomographyBasedWeightedRelativeEntropy(WeightedRelativeEntropy):
         q = self._prob_dists_q_flat
         p = self._matA @ var + self._vecB
         if validate:
-            num_prob_dists = len(self.prob_dists_q)
-            ps = p.reshape((num_prob_dists, -1))
+            sizes = [len(prob_dist) for prob_dist in self.prob_dists_q]
+            ps = np.split(p, np.cumsum(sizes)[:-1])
             for index, prob in enumerate(ps):
                 validate_prob_dist(
                     prob,
@@ -172,8 +172,8 @@ class StandardQTomographyBasedWeightedRelativeEntropy(WeightedRelativeEntropy):
         q = self._prob_dists_q_flat
         p = self._matA @ var + self._vecB
         if validate:
-            num_prob_dists = len(self.prob_dists_q)
-            ps = p.reshape((num_prob_dists, -1))
+            sizes = [len(prob_dist) for prob_dist in self.prob_dists_q]
+            ps = np.split(p, np.cumsum(sizes)[:-1])
             for index, prob in enumerate(ps):
                 validate_prob_dist(
                     prob,
